@@ -1,6 +1,8 @@
 package shard
 
 import (
+	"math"
+
 	"github.com/google/uuid"
 	"github.com/semafind/semadb/models"
 )
@@ -80,6 +82,9 @@ func VerifBatchAllOrNothing() {
 	before := observe(s, ids)
 	// the batch under test, with a storage fault at its k-th mutating operation (or none)
 	kind := nondetIntRange(0, 3)
+	if k := vparam("KIND", -1); k >= 0 {
+		vassume(kind == k)
+	}
 	st.failAt = nondetIntRange(-1, vparam("FAULTS", 12))
 	if st.failAt == -1 && vparam("COMMITFAULT", 1) == 1 {
 		st.failCommit = nondetBool() // no write fails, but the commit itself may
@@ -120,4 +125,88 @@ func VerifBatchAllOrNothing() {
 		}
 	}
 	vassert("no-storage-access-after-the-transaction-ended-later", st.useAfterEnd == 0)
+}
+
+// ---- C07 with a text index: the same all-or-nothing obligation on a collection whose only
+// secondary index is the text index (its flush writes the term sets and the document records;
+// a fault in any of those writes must fail the batch as a whole).
+type textSnapshot struct {
+	count  uint64
+	found  []bool
+	hitsA  int
+	hitsB  int
+	scoreA uint32
+}
+
+func observeText(s *Shard, ids []uuid.UUID) textSnapshot {
+	var sn textSnapshot
+	info, err := s.Info()
+	vassert("observe-info-ok", err == nil)
+	sn.count = info.PointCount
+	for _, id := range ids {
+		f, _, err := readDoc(s, id)
+		vassert("observe-read-ok", err == nil)
+		sn.found = append(sn.found, f)
+	}
+	for i, term := range []string{"a", "b"} {
+		res, err := s.SearchPoints(models.SearchRequest{Query: models.Query{Property: "body", Text: &models.SearchTextOptions{Value: term, Operator: models.OperatorContainsAny, Limit: 10}}, Limit: 10})
+		vassert("observe-text-search-ok", err == nil)
+		if i == 0 {
+			sn.hitsA = len(res)
+			if len(res) > 0 && res[0].Score != nil {
+				sn.scoreA = math.Float32bits(*res[0].Score)
+			}
+		} else {
+			sn.hitsB = len(res)
+		}
+	}
+	return sn
+}
+
+func VerifTextBatchAllOrNothing() {
+	s, st := verifShard(models.IndexSchema{"body": {Type: models.IndexTypeText, Text: &models.IndexTextParameters{Analyser: "standard"}}})
+	a, b := nondetUUID(), nondetUUID()
+	vassume(a != b)
+	ids := []uuid.UUID{a, b}
+	vassume(s.InsertPoints([]models.Point{{Id: a, Data: vdoc(map[string]any{"body": "a"})}}) == nil)
+	before := observeText(s, ids)
+	kind := nondetIntRange(0, 2)
+	st.failAt = nondetIntRange(-1, vparam("FAULTS", 12))
+	st.ops, st.counting = 0, true
+	st.useAfterEnd = 0
+	st.strict = true
+	var err error
+	switch kind {
+	case 0: // insert a document sharing a term with the stored one and bringing a new term
+		err = s.InsertPoints([]models.Point{{Id: b, Data: vdoc(map[string]any{"body": "ab"})}})
+	case 1: // rewrite the stored document
+		_, err = s.UpdatePoints([]models.Point{{Id: a, Data: vdoc(map[string]any{"body": "b"})}})
+	case 2: // delete it
+		_, err = s.DeletePoints(map[uuid.UUID]struct{}{a: {}})
+	}
+	st.counting = false
+	faulted := st.failAt >= 0 && st.ops > st.failAt
+	vcover("reached")
+	if faulted {
+		vcover("faulted")
+		vassert("faulted-batch-reports-an-error", err != nil)
+	}
+	after := observeText(s, ids)
+	if err != nil {
+		same := before.count == after.count && before.hitsA == after.hitsA && before.hitsB == after.hitsB && before.scoreA == after.scoreA
+		for i := range ids {
+			same = same && before.found[i] == after.found[i]
+		}
+		vassert("failed-batch-leaves-every-answer-unchanged", same)
+	} else {
+		switch kind {
+		case 0:
+			vassert("successful-insert-is-visible", after.count == 2 && after.hitsA == 2 && after.hitsB == 1)
+		case 1:
+			vassert("successful-rewrite-is-visible", after.count == 1 && after.hitsA == 0 && after.hitsB == 1)
+		case 2:
+			vassert("successful-delete-is-visible", after.count == 0 && after.hitsA == 0 && after.hitsB == 0)
+		}
+	}
+	vassert("no-storage-access-after-the-transaction-ended", st.useAfterEnd == 0)
 }
